@@ -156,3 +156,14 @@ claim('C15', 'Lean 4 proofs (order-insensitivity of every consumer of a hash-ord
       'correspondence) and by assembling each generated case in real subprocesses under several PYTHONHASHSEED values, both -I orders, '
       'two working directories and a scrubbed environment: image, listing, hex, Intel HEX and compact hex must be byte-identical.',
       NOTE + ' Runtime behaviour the model cannot exhibit: CPython hash randomisation, environment, working directory.')
+
+claim('C20', 'Lean 4 proofs about a backtracking regex-matcher model (\\b-delimited word alternation takes exactly the vocabulary words, all-or-nothing, order-independent; rule-order classification = membership) + structural validation of the really generated packages',
+      'PARTIAL. Kernel-checked theorems on the model matcher: a \\b-delimited alternation of plain words takes a plain word completely iff '
+      'the word is in the list (case-insensitively for instructions/registers, exactly for predefined names), never takes only part of it '
+      '("#ifdef" is not "if"+"def"), and the outcome is independent of the order of the alternatives (hash order of Python sets); classifying '
+      'by the rules in grammar order equals membership in the configured vocabularies. Tested, not proved, on every run: the packages the real '
+      'CLI generates (VS Code and Sublime) parse as JSON / YAML / plist / zip, contain no ##TOKEN## placeholder, their vocabulary alternations '
+      'equal the configured sets, and probe words (vocabulary, prefixes, extensions, case variants, directives) are classified by Python re on '
+      'the generated patterns in rule order exactly as the model and the membership spec say.',
+      NOTE + ' Runtime behaviour the model cannot exhibit: json/yaml/plistlib/zipfile writers; Python re on the generated patterns (validated per probe).',
+      category='proof')
